@@ -100,10 +100,13 @@ package types
 //@ modifies Other
 //@ func (k StakingKeeper) GetValidator
 //@ trusted
+// (the staking keeper's read-only queries fail only when its own store is unreadable: assumed not to)
 //@ func (k StakingKeeper) IterateBondedValidatorsByPower
 //@ trusted
+//@ ensures err == nil
 //@ func (k StakingKeeper) TotalBondedTokens
 //@ trusted
+//@ ensures err == nil
 
 //@ func AbsInt64
 //@ ensures x > MinInt64 ==> result == abs(x)
@@ -152,3 +155,4 @@ package types
 // ---- C02: what the feeds end-blocker relies on about the stored parameters is what validation guarantees ------------
 //@ func (p Params) Validate
 //@ ensures err == nil ==> p.CurrentFeedsUpdateInterval > 0 && p.PowerStepThreshold > 0 && p.MinInterval > 0 && p.MaxInterval > 0
+//@ ensures err == nil ==> ext("LegacyNewDecFromStr#1", p.PriceQuorum) == nil
